@@ -324,10 +324,86 @@ def worker(rec, shard, nshards, nrows, thorough, seed):
                 rec.violation("C20:unordered-onsets-wrong-exception:" + type(e).__name__, onsets=list(ons))
 
 
+# ---- E2: observer histories on one manager ------------------------------------------------------------------------------
+OBS_DEFS = ["(Definition/Cv, (Condition-variable/Speed, Red))", "(Definition/Pl, (Blue))"]
+OBS_FILES = [
+    [("1.0", "Sensory-event, Condition-variable/Load, Task, (Def/Cv, Onset)"), ("2.0", "Agent-action, Def/Cv, Green"),
+     ("3.0", "(Def/Cv, Offset), Task, (Duration/2 s, (Condition-variable/Fast, Square))"), ("6.0", "Circle")],
+    [("1.0", "(Def/Pl, Onset), Condition-variable/A"), ("1.0", "Task, Blue"), ("2.5", "(Def/Pl, Offset), Def/Cv")],
+    [("0.5", "Red"), ("1.5", "(Delay/1 s, (Condition-variable/Late, Green)), Task")],
+]
+OBS_OPS = ["unfold", "unfold:cv", "unfold:cv+task", "objs", "objs:cv", "objs-noctx:task"]
+
+
+def observer_histories(ctx, depth):
+    """Every sequence of observers up to depth on one EventManager: each answer equals the answer of a fresh manager, and
+    base / contexts / remaining annotations are the same after the history as before it."""
+    import pandas as pd
+    from hed import load_schema_version
+    from hed.models.definition_dict import DefinitionDict
+    from hed.models.tabular_input import TabularInput
+    from hed.tools.analysis.event_manager import EventManager
+    from hed.tools.analysis.hed_tag_manager import HedTagManager
+    rec = ctx.rec
+    schema = load_schema_version("8.3.0")
+    dd = DefinitionDict(OBS_DEFS, schema)
+    types = {"cv": ["Condition-variable"], "cv+task": ["Condition-variable", "Task"], "task": ["Task"]}
+
+    def build(rows):
+        df = pd.DataFrame({"onset": [r[0] for r in rows], "HED": [r[1] for r in rows]})
+        return EventManager(TabularInput(df), schema, extra_defs=dd)
+
+    def snapshot(em):
+        return ([str(x) for x in em.base], [str(x) for x in em.contexts], [str(x) for x in em.hed_strings],
+                [float(x) for x in em.onsets])
+
+    def observe(em, op):
+        kind, _, arg = op.partition(":")
+        rt = types.get(arg, [])
+        if kind == "unfold":
+            a, b, c = em.unfold_context(remove_types=list(rt))
+            return ([str(x) for x in a], [str(x) for x in b], [str(x) for x in c])
+        mgr = HedTagManager(em, remove_types=list(rt))
+        return [str(x) if x else "" for x in mgr.get_hed_objs(include_context=(kind == "objs"))]
+
+    for fi, rows in enumerate(OBS_FILES):
+        try:
+            fresh = {op: observe(build(rows), op) for op in OBS_OPS}
+            initial = snapshot(build(rows))
+        except Exception as e:
+            rec.violation("C20:observer:raises:" + type(e).__name__, file=rows, error=repr(e)[:300])
+            continue
+        for d in range(1, depth + 1):
+            for hist in itertools.product(OBS_OPS, repeat=d):
+                rec.n("evaluations")
+                rec.n("transitions", d)
+                if d > 1:
+                    rec.n("distinct_nontrivial")
+                rec.state(("observer", fi, tuple(sorted(set(hist)))))
+                try:
+                    em = build(rows)
+                    for step, op in enumerate(hist):
+                        got = observe(em, op)
+                        if got != fresh[op]:
+                            rec.violation("C20:observer:answer-depends-on-earlier-observations", file=rows, history=list(hist),
+                                          step=step, fresh=fresh[op], got=got)
+                            break
+                    else:
+                        if snapshot(em) != initial:
+                            now = snapshot(em)
+                            which = [n for n, a, b in zip(("base", "contexts", "remaining", "onsets"), initial, now) if a != b]
+                            rec.violation("C20:observer:manager-state-changed:" + "+".join(which), file=rows,
+                                          history=list(hist), before=initial[2], after=now[2])
+                except Exception as e:
+                    rec.violation("C20:observer:raises:" + type(e).__name__, file=rows, history=list(hist), error=repr(e)[:300])
+                rec.outcome("observer-history")
+
+
 def run(ctx):
     nrows = ctx.pick(3, 4)
     ctx.rec.notes["bounds"] = {"rows": nrows, "grid": GRID if ctx.thorough else GRID[:3], "items": [repr(m) for m in items_menu(ctx.thorough)]}
     ctx.parallel(worker, nrows, ctx.thorough, ctx.seed)
+    observer_histories(ctx, ctx.pick(2, 3))
     ctx.rec.counts["states"] = len(ctx.rec.states)
     ctx.rec.notes["skipped_invalid_history"] = ctx.rec.counts.get("skipped_invalid_history", 0)
 
